@@ -143,3 +143,19 @@ fn k_subject2_replay__history_then_stored_error() {
   assert!(l.is(&[EV_N | a as u32, EV_N | b as u32, EV_E | id as u32]), "subject.replay: a subscriber arriving after the error must get every past item in order, then the stored error");
   kani::cover!(true, "harness reaches its end");
 }
+
+// unsubscribe hooks of the wrapping subjects: when an observer of a BehaviorSubject / ReplaySubject unsubscribes, the INNER Subject
+// must drop the forwarding observer that was registered on its behalf
+#[kani::proof]
+#[kani::unwind(3)]
+fn k_subject2_behavior__unsubscribe_releases_inner_observer() {
+  let sbj = subjects::BehaviorSubject::<u8>::new(1);
+  let l1 = Log::new();
+  let s1 = attach_o(&sbj.observable(), l1);
+  assert!(crate::subjects::subject::verif_k::held(&sbj.subject) == 1, "subject.behavior: the new subscriber was not attached to the inner Subject");
+  s1.unsubscribe();
+  assert!(crate::subjects::subject::verif_k::held(&sbj.subject) == 0, "subject.drops: the inner Subject of a BehaviorSubject still holds the observer of a subscriber that unsubscribed");
+  sbj.next(kani::any());
+  assert!(l1.is(&[EV_N | 1]), "subject.unsubscribe: an unsubscribed observer received a later event");
+  kani::cover!(true, "harness reaches its end");
+}
